@@ -423,3 +423,18 @@ def _percent_unit():
 
 
 UNITS.append(_percent_unit())
+
+
+# ---- F6: a binary operator written after a COMPLETE operand (a plain or scientific-notation literal, a reference) is an operator of its own --
+def _operator_unit():
+    from contracts import c02_tokenizer as T2
+    ou = [u for u in T2.UNITS if u.id == 'C02/tokenizer.getTokens/infix_operator_step'][0]
+    return Unit(
+        id='C01/tokenizer.getTokens/operator_after_a_complete_operand', target=ou.target, prop='C01', inputs=ou.inputs, requires=ou.requires,
+        cases=[Case('an operator character ends the pending operand - also one in scientific notation that is already complete (1E+3) - and becomes ONE '
+                    'infix-operator token: only the sign right after the exponent marker of "<mantissa>E" belongs to the literal',
+                    lambda *a: True, ou.cases[0].ensures)],
+        call=ou.call, native_call=ou.native_call, cross_key=ou.cross_key, timeout_ms=20000)
+
+
+UNITS.append(_operator_unit())
